@@ -176,6 +176,16 @@ def check_case(ctx, case):
                                       precision_level=rng.choice([None, None, 0.5]))
                 results.append(res)
             c.best_window_size = np.inf
+    # a larger sparse continuum, for which a window-size measure WOULD record a finite window: only the fast mode
+    # (and the explicit measure) may touch best_window_size
+    if case.get("windowable"):
+        big = cases.build_continuum(case["windowable"])
+        gd = pool.get({"kind": "combined", "alpha": 1.0, "beta": 1.0, "delta": 1.0, "pos": None, "cat": None})
+        for mode, ns in (("exact", 1), ("exact", 2), ("soft", 2), ("exact", 3)):
+            with P(f"compute_gamma[{mode},windowable]", continua=[big], dissims=[gd]):
+                big.compute_gamma(gd, n_samples=ns, soft=mode == "soft", sampler=pa.ShuffleContinuumSampler())
+        with P("get_fast_alignment[windowable]", continua=[big], dissims=[gd]):
+            big.get_fast_alignment(gd, 3)
     for res in results[:2]:
         with P("GammaResults.gamma"):
             res.gamma, res.expected_disorder, res.observed_disorder, res.n_samples
@@ -276,7 +286,11 @@ def gen_case(ctx, dspecs):
     ref = cases.gen_continuum(rng, n_annot=1, sizes=[rng.randint(1, 8)], family=rng.choice(["grid", "dyadic", "touching"]),
                               labels=cases.LABELS_SMALL, names=["Ref"])
     ref["ann"]["Ref"] = [u for u in ref["ann"]["Ref"] if u[1] - u[0] >= 1.0] or [[0.0, 2.0, "a"]]
+    windowable = None
+    if rng.random() < 0.25:
+        windowable = cases.gen_continuum(rng, n_annot=4, sizes=[14] * 4, family="grid", labels=cases.LABELS_SMALL)
     return {"continuum": cspec, "dissim": dspec, "other": other, "reference": ref, "window": rng.randint(1, 4),
+            "windowable": windowable,
             "magnitude": rng.choice([0.0, 0.3, 0.7, 1.0]), "cst_annotators": rng.choice([2, 3, ["p", "q"]]),
             "extra_categories": rng.choice([None, ["extra-cat"], ["x1", "x2"]]), "np_seed": rng.randrange(2 ** 31)}
 
